@@ -3,10 +3,12 @@ package sdl
 import (
 	"fmt"
 	"math"
+	"reflect"
 	"sort"
 	"strconv"
 	"strings"
 	"time"
+	"unsafe"
 
 	"github.com/uhn/ggql/pkg/ggql"
 )
@@ -291,6 +293,9 @@ func Describe(root *ggql.Root, o DescribeOpts) string {
 		lines := describeArgs(root, args, o)
 		blocks = append(blocks, fmt.Sprintf("directive %s desc=%q on %s\n%s", name, d.Description(), strings.Join(locs, "|"), strings.Join(lines, "\n")))
 	}
+	if sch := impliedSchema(root); sch != nil && len(sch.Directives()) > 0 {
+		blocks = append(blocks, fmt.Sprintf("schema dirs=[%s]", describeUses(root, sch.Directives(), o))+"\n")
+	}
 	// the operation roots, whether the schema block is explicit or implied (an implied one is not in Types())
 	roots := "roots"
 	res := root.ResolveString("{__schema{queryType{name}mutationType{name}subscriptionType{name}}}", "", nil)
@@ -309,4 +314,20 @@ func Describe(root *ggql.Root, o DescribeOpts) string {
 	blocks = append(blocks, roots)
 	sort.Strings(blocks)
 	return strings.Join(blocks, "\n")
+}
+
+// impliedSchema returns the schema object of a root whose schema block is implied (it is not among
+// Types() and no accessor hands it out: it is read from the root's unexported field), nil otherwise.
+func impliedSchema(root *ggql.Root) *ggql.Schema {
+	for _, t := range root.Types() {
+		if _, ok := t.(*ggql.Schema); ok {
+			return nil
+		}
+	}
+	f := reflect.ValueOf(root).Elem().FieldByName("schema")
+	if !f.IsValid() || f.Kind() != reflect.Ptr || f.IsNil() {
+		return nil
+	}
+	sch, _ := reflect.NewAt(f.Type(), unsafe.Pointer(f.UnsafeAddr())).Elem().Interface().(*ggql.Schema)
+	return sch
 }
